@@ -248,3 +248,23 @@ V('C19-retried-writer-accumulates', 'C19', D, "        meta = write_info[0]['met
   "        meta = write_info[0]['meta']\n\n        @retryit\n        def write_metadata_file():\n            for i in range(1, len(write_info)):\n                meta.append_row_groups(write_info[i][\"meta\"])\n            with filesystem.open(os.path.join(path, \"_metadata\"), 'wb') as f:", rule='C19.d')
 V('C19-move-swallows-fnf', 'C19', D, "            if filesystem.exists(p1):\n                filesystem.move(p1, p2)", "            try:\n                filesystem.move(p1, p2)\n            except FileNotFoundError:\n                pass", rule='C19.a')
 V('C19-gate-subset', 'C19', D, "            if subpart_paths_stripped != ls_res:\n", "            if not set(ls_res).issubset(subpart_paths_stripped):\n", rule='C19.b')
+
+# ------------------------------------------------------------------------------------------------ C13
+BN = 'spatialpandas/geometry/_algorithms/bounds.py'
+V('C13-y-from-even-index', 'C13', BN, "        y = values[i + 1]\n        if np.isfinite(y):\n            ymin = min(ymin, y)", "        y = values[i]\n        if np.isfinite(y):\n            ymin = min(ymin, y)", rule='C13')
+V('C13-ymin-uses-x', 'C13', BN, "            ymin = min(ymin, y)\n            ymax = max(ymax, y)", "            ymin = min(ymin, x)\n            ymax = max(ymax, y)", rule='C13')
+V('C13-xmax-is-min', 'C13', BN, "            xmax = max(xmax, x)", "            xmax = min(xmax, x)", rule='C13.a')
+V('C13-return-layout', 'C13', BN, "    return (xmin, ymin, xmax, ymax)", "    return (xmin, xmax, ymin, ymax)", rule='C13.a')
+V('C13-drop-isfinite-guard', 'C13', BN, "        x = values[i]\n        if np.isfinite(x):\n            xmin = min(xmin, x)\n            xmax = max(xmax, x)", "        x = values[i]\n        xmin = min(xmin, x)\n        xmax = max(xmax, x)", rule='C13.a')
+V('C13-1d-undershoot', 'C13', BN, "    for i in range(0, len(values), 2):\n        v = values[i + offset]", "    for i in range(offset, len(values) - 1, 2):\n        v = values[i]", rule='C13.a')
+V('C13-row-neighbour-stop', 'C13', BN, "        stop = flat_value_offsets[i + 1]", "        stop = flat_value_offsets[i + 2]", rule='C13', analysis_error_ok=True)
+V('C13-bounds-window-with-abs-offsets', 'C13', BL, "        return bounds_interleaved(self.buffer_values, self.buffer_outer_offsets)", "        return bounds_interleaved(self.flat_values, self.buffer_outer_offsets)", rule='C13.b')
+V('C13-total-bounds-whole-buffer', 'C13', BL, "        return total_bounds_interleaved(self.flat_values)", "        return total_bounds_interleaved(self.buffer_values)", rule='C13', analysis_error_ok=True)
+V('C13-flat-values-fast-path', ['C13', 'C16'], BL, "        # Compute valid start/stop index into buffer values array.\n        buffer_offsets = self.buffer_offsets", "        if self.listarray.offset == 0:\n            return self.buffer_values\n        # Compute valid start/stop index into buffer values array.\n        buffer_offsets = self.buffer_offsets", rule=None, rules={'C13': 'C13.b', 'C16': 'C16'})
+V('C13-outer-offsets-skip-level', 'C13', BL, "        flat_offsets = buffer_offsets[0]\n        for offsets in buffer_offsets[1:]:\n            flat_offsets = offsets[flat_offsets]", "        flat_offsets = buffer_offsets[0]\n        for offsets in buffer_offsets[2:]:\n            flat_offsets = offsets[flat_offsets]", rule='C13')
+V('C13-reintroduce-D2', ['C13', 'C17'], BF, "        return total_bounds_interleaved(self._valid_flat_values)", "        return total_bounds_interleaved(self.flat_values)", rule=None, rules={'C13': 'C13.c', 'C17': 'C17.a'})
+V('C13-reintroduce-D1', ['C13', 'C17'], BF, "        flat_values = self._valid_flat_values\n        if len(self) == 0:", "        flat_values = self.flat_values\n        if len(self) == 0:", rule=None, rules={'C13': 'C13.c', 'C17': 'C17.a'})
+V('C13-fixed-ignores-offset', ['C13', 'C16'], BF, "            start = self.data.offset * self._element_len", "            start = 0", rule=None, rules={'C13': 'C13', 'C16': 'C16'})
+V('C13-geoseries-columns', 'C13', 'spatialpandas/geoseries.py', "            self.array.bounds, columns=['x0', 'y0', 'x1', 'y1'], index=self.index", "            self.array.bounds, columns=['x0', 'x1', 'y0', 'y1'], index=self.index", rule='C13.d')
+V('C13-silent-rename-accumulators', 'C13', BN, "    vmin = np.inf\n    vmax = -np.inf\n\n    for i in range(0, len(values), 2):\n        v = values[i + offset]\n        if np.isfinite(v):\n            vmin = min(vmin, v)\n            vmax = max(vmax, v)\n\n    if np.isfinite(vmin):\n        return (vmin, vmax)",
+  "    lo = np.inf\n    hi = -np.inf\n\n    for k in range(0, len(values), 2):\n        c = values[k + offset]\n        if np.isfinite(c):\n            lo = min(c, lo)\n            hi = max(c, hi)\n\n    if np.isfinite(lo):\n        return (lo, hi)", expect='silent')
